@@ -117,8 +117,12 @@ impl ZoneStore {
         }
 
         // Check persistent store
+        #[cfg(iroh_verif)]
+        crate::verif_hooks::pause("dnssrv.resolve.miss", name).await;
         if let Some(packet) = self.store.get(pubkey).await? {
             trace!(packet_timestamp = ?packet.timestamp(), "store hit");
+            #[cfg(iroh_verif)]
+            crate::verif_hooks::pause("dnssrv.resolve.got", name).await;
             let mut cache = self.cache.lock().await;
             let result = cache.insert_and_resolve(&packet, name, record_type);
             return match result {
@@ -180,14 +184,38 @@ impl ZoneStore {
         _source: PacketSource,
     ) -> Result<bool> {
         let pubkey = PublicKeyBytes::from_signed_packet(&signed_packet);
+        #[cfg(iroh_verif)]
+        let verif_tag = crate::verif_hooks::packet_tag(&signed_packet);
         if self.store.upsert(signed_packet).await? {
             self.metrics.pkarr_publish_update.inc();
+            #[cfg(iroh_verif)]
+            crate::verif_hooks::pause("dnssrv.insert.upserted", &verif_tag).await;
             self.cache.lock().await.remove(&pubkey);
+            #[cfg(iroh_verif)]
+            crate::verif_hooks::pause("dnssrv.insert.invalidated", &verif_tag).await;
             Ok(true)
         } else {
             self.metrics.pkarr_publish_noop.inc();
             Ok(false)
         }
+    }
+}
+
+#[cfg(iroh_verif)]
+impl ZoneStore {
+    /// Store on a caller-supplied redb database.
+    pub(crate) fn verif_with_database(
+        db: redb::Database,
+        options: Options,
+        metrics: Arc<Metrics>,
+    ) -> Result<Self> {
+        let packet_store = SignedPacketStore::open(db, options, metrics.clone())?;
+        Ok(Self::new(packet_store, metrics))
+    }
+
+    /// Committed content of the packet store.
+    pub(crate) async fn verif_dump(&self) -> Result<crate::verif_hooks::StoreDump> {
+        self.store.verif_dump().await
     }
 }
 
